@@ -47,8 +47,19 @@ BL = {'chrB': [('bl_s', 'bl_e')]}
 def blacklist(eng, name):
     s, e = named(INT, 'bl_s'), named(INT, 'bl_e')
     eng.assume(s.z <= e.z)
-    eng.spec_env['BL'] = (s, e)
+    eng.spec_env['BLS'] = [(s, e)]
     return {'chrB': [(s, e)]}
+
+
+def blacklist2(eng, name):
+    """two intervals in the order of the BED file - any order, overlapping or not"""
+    iv = []
+    for i in (1, 2):
+        s, e = named(INT, 'bl%d_s' % i), named(INT, 'bl%d_e' % i)
+        eng.assume(s.z <= e.z)
+        iv.append((s, e))
+    eng.spec_env['BLS'] = iv
+    return {'chrB': list(iv)}
 
 
 # the filter, written from the property statement (every selected filter must pass)
@@ -62,13 +73,13 @@ PASSES = ('not (args.r1only and read.is_read2) and not (args.r2only and read.is_
           'and (not args.filterXA or not XA_HIT) '
           'and not (args.dedup and (read.has_tag("RR") or read.is_duplicate))')
 BLACKLISTED = ('(blacklist_dic is not None and read.reference_name == "chrB" and '
-               '((read.reference_start >= BL[0] and read.reference_start < BL[1]) or '
-               '(read.reference_end >= BL[0] and read.reference_end < BL[1])))')
+               'any([((read.reference_start >= b[0] and read.reference_start < b[1]) or '
+               '(read.reference_end >= b[0] and read.reference_end < b[1])) for b in BLS]))')
 
 should_count = Contract(
     PROP, F + '::read_should_be_counted', name='read_should_be_counted',
     params={'read': the_read(True), 'args': args_ns(), 'blacklist_dic': 'none'},
-    cases=[{}, {'blacklist_dic': blacklist},
+    cases=[{}, {'blacklist_dic': blacklist}, {'blacklist_dic': blacklist2},
            {'args': args_ns(lambda e: {'max_base_edits': None})},
            {'read': the_read(False)}, {'read': the_read(False), 'blacklist_dic': blacklist}],
     setup=filter_setup,
@@ -78,7 +89,7 @@ should_count = Contract(
     },
     raises={},        # no exception for any read, mapped or not
     assumptions=['blacklist semantics as documented in the code: a read is dropped when its start or its end lies in a '
-                 'blacklisted interval [start, end) of its contig (one interval modelled)',
+                 'blacklisted interval [start, end) of its contig (one interval, and two intervals in any order)',
                  'reads carry no tags other than mp NM XA RR NH SM DS (closed world); pysam record stub',
                  'read_has_alternative_hits_to_non_alts treated as a predicate of the read'],
 )
@@ -121,10 +132,10 @@ def filter_replay(inputs, clause):
     a = inputs['args']['attrs']
     args = types.SimpleNamespace(**a)
     bl = None
-    BLv = (0, 0)
+    BLv = []
     if inputs.get('blacklist_dic'):
-        BLv = tuple(inputs['blacklist_dic']['chrB'][0])
-        bl = {'chrB': [BLv]}
+        BLv = [tuple(x) for x in inputs['blacklist_dic']['chrB']]
+        bl = {'chrB': list(BLv)}
     rec = {'flag': seg.flag, 'cigar': seg.cigarstring, 'tags': dict(seg.get_tags()), 'reference_name': seg.reference_name,
            'reference_start': seg.reference_start, 'reference_end': seg.reference_end, 'mapping_quality': seg.mapping_quality}
     try:
@@ -133,7 +144,7 @@ def filter_replay(inputs, clause):
         return {'status': 'confirmed', 'observed': {'outcome': 'raise', 'value': [type(e).__name__, str(e)], 'record': rec, 'args': a},
                 'failed': [{'clause': 'raises.only', 'exception': type(e).__name__}]}
     # the clause of the property statement, evaluated natively on the real record
-    env = {'read': seg, 'args': args, 'blacklist_dic': bl, 'BL': BLv,
+    env = {'read': seg, 'args': args, 'blacklist_dic': bl, 'BLS': BLv,
            'XA_HIT': import_real(F, 'read_has_alternative_hits_to_non_alts')(seg)}
     expected = bool(not seg.is_unmapped and eval(PASSES, {}, env) and not eval(BLACKLISTED, {}, env))
     obs = {'outcome': 'return', 'value': got, 'expected': expected, 'record': rec, 'args': a}
